@@ -5,7 +5,7 @@ from typing import Optional, Tuple
 
 from .. import terms as tm
 from ..interp import Interp
-from ..lib import fmt, fuse_elems, is_call_to, per_element
+from ..lib import devectorise, fmt, fuse_elems, is_call_to, per_element
 from ..progdb import AnalysisError
 from ..terms import T, const
 from . import metrics_model as mm
@@ -55,7 +55,7 @@ MANIFEST = dict(
 )
 FLOORS = {"C02.1": 1, "C02.2": 8, "C02.3": 5, "C02.4": 3, "C02.5": 5,
           "C02.6": 14, "C02.7": 30, "C02.8": 20,
-          "C02.9": 12}
+          "C02.9": 12, "C02.10": 4}
 
 RPE = "evo.core.metrics.RPE"
 IDP = "evo.core.metrics.id_pairs_from_delta"
@@ -92,6 +92,7 @@ def check(ctx):
         dids = mm.final_attr(prog, res, "RPE", "delta_ids")
         ctx.require(err is not None and dids is not None,
                     f"RPE[{member}]: error / delta_ids never assigned")
+        err, dids = devectorise(err), devectorise(dids)
         idps = res.calls(IDP)
         ctx.require(len(idps) == 1, f"RPE[{member}]: id_pairs_from_delta "
                     f"call not found")
@@ -211,6 +212,8 @@ def check(ctx):
     from .c01 import _pipeline_views
     ctx.section(_pipeline_views, ctx, "C02.8")
     ctx.section(_pipeline_inputs, ctx, "C02.9")
+    from .c01 import _helpers
+    ctx.section(_helpers, ctx, "C02.10")
 
 
 def coindexing(ctx, res, member, err, dids, IDPAIRS, rule):
@@ -318,15 +321,10 @@ def _pair_source(ctx, prog, res):
            "frames)", key="C02.5:init:delta", value=fmt(v))
 
 
-def _dist_array(t: T, IDPAIRS: T) -> Optional[str]:
-    """'ref'/'est' if t = array([norm(X.pos[i] - X.pos[j]) for i,j in pairs])"""
-    pe = per_element(t)
-    if pe is None:
-        return None
-    elt, lid, it, conds = pe
-    if conds or it is not IDPAIRS:
-        return None
-    red = mm.match_reducer(elt)
+def _pair_distance(n: T, el: T) -> Optional[str]:
+    """'ref'/'est' if n = norm(X.pos[i] - X.pos[j]) with {i, j} the two ends
+    of the pair element `el`"""
+    red = mm.match_reducer(n)
     if red is None or red["family"] != "norm" or red["block"] != "vector":
         return None
     d = red["arg"]
@@ -335,11 +333,36 @@ def _dist_array(t: T, IDPAIRS: T) -> Optional[str]:
     pa, pb = mm.pose_at(d.args[1]), mm.pose_at(d.args[2])
     if not pa or not pb:
         return None
-    el = T("elem", IDPAIRS, lid)
     idx = {pa[2], pb[2]}
     if pa[0] == pb[0] and pa[1] == pb[1] == "positions_xyz" and \
             idx == {tm.sub(el, const(0)), tm.sub(el, const(1))}:
         return pa[0]
+    return None
+
+
+def _dist_array(t: T, IDPAIRS: T) -> Optional[str]:
+    """'ref'/'est' if t = array([norm(X.pos[i] - X.pos[j]) for i,j in pairs])
+    (or its vectorised spelling)"""
+    pe = per_element(t)
+    if pe is None:
+        return None
+    elt, lid, it, conds = pe
+    if conds or it is not IDPAIRS:
+        return None
+    return _pair_distance(elt, T("elem", IDPAIRS, lid))
+
+
+def _nonzero_of(sel: T) -> Optional[T]:
+    """the array whose non-zero positions the selector enumerates"""
+    if sel.op == "sub" and tm.is_const(sel.args[1], 0):
+        inner = sel.args[0]
+        if is_call_to(inner, ".nonzero"):
+            return tm.method_recv(inner)
+        if is_call_to(inner, "numpy.nonzero", "numpy.where") and \
+                len(inner.args[1]) == 1:
+            return inner.args[1][0]
+    if is_call_to(sel, "numpy.flatnonzero") and len(sel.args[1]) == 1:
+        return sel.args[1][0]
     return None
 
 
@@ -377,14 +400,12 @@ def _point_distance(ctx, res, member, err, IDPAIRS, family):
                                 f"is not a per-pair distance array over "
                                 f"id_pairs: {fmt(dbase)}")
                 return
-            sel_src = None
-            if nsel is not None and nsel.op == "sub" and \
-                    is_call_to(nsel.args[0], ".nonzero"):
-                sel_src = tm.method_recv(nsel.args[0])
+            sel_src = _nonzero_of(nsel) if nsel is not None else None
             ratio_ok = nsel is dsel and nsel is not None and \
-                which == "ref" and sel_src is dbase
+                which == "ref" and sel_src is not None and \
+                devectorise(sel_src) is devectorise(dbase)
             why = (f"divides by the {which} distances, selector computed "
-                   f"from {fmt(sel_src)[:50]}")
+                   f"from {fmt(sel_src)[:50] if sel_src is not None else None}")
             core = nbase
         ctx.ob("C02.4", res.func, ratio_ok,
                f"RPE[{member}]: |d_ref - d_est| / d_ref * 100 over the "
@@ -395,14 +416,20 @@ def _point_distance(ctx, res, member, err, IDPAIRS, family):
                key=f"C02.4:{member}:ratio", value=fmt(err))
     ok = False
     parsed = False
-    if is_call_to(core, "numpy.abs", "numpy.absolute", "numpy.fabs",
-                  "builtins.abs") and core.args[1]:
-        d = core.args[1][0]
-        if d.op == "binop" and d.args[0] == "Sub":
-            wa = _dist_array(d.args[1], IDPAIRS)
-            wb = _dist_array(d.args[2], IDPAIRS)
-            parsed = wa is not None and wb is not None
-            ok = {wa, wb} == {"ref", "est"}
+    # element form: | norm(X_j - X_i) - norm(Y_j - Y_i) | per id pair (the
+    # array-level spellings np.abs(D_a - D_b) normalise to the same term)
+    pe = per_element(core)
+    if pe is not None and not pe[3] and pe[2] is IDPAIRS:
+        elt, lid = pe[0], pe[1]
+        if is_call_to(elt, "numpy.abs", "numpy.absolute", "numpy.fabs",
+                      "builtins.abs") and elt.args[1]:
+            d = elt.args[1][0]
+            if d.op == "binop" and d.args[0] == "Sub":
+                el = T("elem", IDPAIRS, lid)
+                wa = _pair_distance(d.args[1], el)
+                wb = _pair_distance(d.args[2], el)
+                parsed = wa is not None and wb is not None
+                ok = {wa, wb} == {"ref", "est"}
     if not parsed:
         ctx.undecidable("C02.4", res.func, f"RPE[{member}]: point-distance "
                         f"error is not |D_a - D_b| over per-pair distance "
